@@ -115,7 +115,7 @@ def replay_main(path):
     else:
         print("replay: harness not found")
         return 2
-    ctx = ConcCtx(lw, values=rp["values"], choices=rp["choices"], tol=rp.get("tol", 1e-6))
+    ctx = ConcCtx(lw, values=rp["values"], choices=rp["choices"], tol=rp.get("tol", getattr(mod, "REPLAY_TOL", 1e-6)))
     from symx.harness import ReplayEnd
     try:
         fn(ctx, **case)
@@ -124,8 +124,10 @@ def replay_main(path):
     except Exception as e:
         print(f"replay: exception {type(e).__name__}: {e}")
         traceback.print_exc()
-        print("REPLAY-RESULT not-reproduced (exception in replay)")
-        return 3
+        if not ctx.failed:
+            print("REPLAY-RESULT not-reproduced (exception in replay)")
+            return 3
+        # a check had already failed before the harness tripped over the broken state
     print("values used:", json.dumps(ctx.used_values))
     if ctx.failed:
         for fl in ctx.failed[:5]:
@@ -154,7 +156,7 @@ def concrete_sweep_main(modname, tier, repo, seed, runs):
             for k in range(runs):
                 if time.time() > t_end:
                     break
-                ctx = ConcCtx(lw, seed=zlib.crc32(repr((seed, name, ci, k)).encode()))
+                ctx = ConcCtx(lw, seed=zlib.crc32(repr((seed, name, ci, k)).encode()), tol=getattr(mod, "REPLAY_TOL", 1e-6))
                 try:
                     fn(ctx, **case)
                 except alg.Unsupported:
